@@ -28,7 +28,7 @@ ASSUMPTIONS = [
     'no randomised tail: only the bounded exhaustive part of the quantifier is decided',
 ]
 
-MECHS = {'fallback': None, 'select': 'Select', 'poll': 'Poll', 'epoll': 'EPoll'}
+MECHS = {'fallback': None, 'fallback_timed': None, 'select': 'Select', 'poll': 'Poll', 'epoll': 'EPoll'}
 
 
 def monitored():
@@ -90,6 +90,11 @@ def execute(case, prefix):
         log.append(('disp', event.tid, event.seq))
 
     root.addHandler(handler('probe')(on_ev))
+    if case.mech == 'fallback_timed':
+        # somebody (a Timer far in the future) bounds the idle wait: the fallback then takes its TIMED wait path
+        def far_timer(self, event):
+            event.reduce_time_left(1000.0)
+        root.addHandler(handler('generate_events')(far_timer))
     while len(root):
         root.flush()
     ex = e2.Execution(prefix)
@@ -228,8 +233,8 @@ def compress(choices):
 
 def plan(tier):
     if tier == 'quick':
-        return [('fallback', 1, 2, 2), ('select', 1, 2, 1), ('poll', 1, 2, 1), ('epoll', 1, 2, 1), ('fallback', 2, 1, 1)]
-    return [('fallback', 1, 2, 3), ('select', 1, 2, 2), ('poll', 1, 2, 2), ('epoll', 1, 2, 2), ('fallback', 2, 2, 2),
+        return [('fallback', 1, 2, 2), ('fallback_timed', 1, 2, 1), ('select', 1, 2, 1), ('poll', 1, 2, 1), ('epoll', 1, 2, 1), ('fallback', 2, 1, 1)]
+    return [('fallback', 1, 2, 3), ('fallback_timed', 1, 2, 2), ('select', 1, 2, 2), ('poll', 1, 2, 2), ('epoll', 1, 2, 2), ('fallback', 2, 2, 2),
             ('epoll', 2, 1, 2)]
 
 
